@@ -60,6 +60,13 @@ func c03Lit(w *W, s *parseSession, lit []byte, harness string) {
 					}
 				}
 			}
+			if site == 0 && bad == "" && math.Abs(modelFloat(want)) >= 1<<52 {
+				// where conversions between int64, uint64 and float64 have boundaries: every
+				// element-wise and bulk numeric accessor against the conversion model
+				if what, afp := c12ArrayAccessorsAt(pj, vpath{0}, &ref.Node{K: ref.KArr, Elems: []*ref.Node{want}}); what != "" {
+					bad, fp = what, "accessor/"+afp
+				}
+			}
 			if bad == "" && got.Render() != wantR {
 				cls := "value"
 				if got.K != want.K {
